@@ -190,4 +190,17 @@ func init() {
 	}
 	Props["C10"].Engines = append(Props["C10"].Engines, &concEngine{opts: c10})
 	Props["C10"].Conc = c10
+	// C16 (cache level): writers fill a tiny write buffer while maintenance is slow or queued, so that
+	// offers are refused and the refused writer runs the maintenance itself; every producer's events
+	// must still be consumed in that producer's order (conc_order.go), and nothing may be forgotten
+	// (audit at quiescence).
+	c16 := &ConcOpts{
+		Profile: Profile{Prop: "C16", NoRef: true, Keys: [2]int{1, 6}},
+		OpW:     zeroExcept(map[string]int{"set": 44, "setifabsent": 4, "compute": 8, "invalidate": 10, "get": 6, "computeifpresent": 3}),
+		Tasks:   [2]int{1, 4}, OpsPer: [2]int{8, 40}, Prefill: [2]int{0, 4},
+		Executors:  []string{"sync", "queued", "queued"},
+		NonTrivial: func(o *ConcOutcome) bool { return o.Probes["producer-order-notifications-checked"] > 1 },
+	}
+	Props["C16"].Engines = append(Props["C16"].Engines, &concEngine{opts: c16})
+	Props["C16"].Conc = c16
 }
